@@ -319,7 +319,7 @@ def tie_shape(levels):
 
 
 ENC_STYLES = ["int", "int0", "float", "mixed", "neg", "big", "bool", "negzero", "hugefloat", "tinyfloat", "beyond_double",
-              "subclass"]
+              "subclass", "withinf"]
 
 
 class _F(float):
@@ -401,6 +401,14 @@ def encode_levels(rng, levels, style=None):
         for _ in uniq:
             vals.append(cur)
             cur += rng.choice([1, 7, 10 ** 300])
+    elif style == "withinf":
+        # +-infinity as the label of the last / first level ("did not finish", an unbeaten time): totally ordered, equal
+        # to itself, accepted by the validation - a level like any other (NaN is not: it is not ordered)
+        vals = [float(i + 1) if rng.random() < 0.5 else i + 1 for i in range(n)]
+        if rng.random() < 0.8:
+            vals[-1] = math.inf
+        if n >= 2 and rng.random() < 0.3:
+            vals[0] = -math.inf
     elif style == "subclass":
         cur = rng.choice([0, 1, -3])
         vals = []
